@@ -825,7 +825,12 @@ func (r *envelopingReader) Read(data []byte) (n int, err error) {
 				r.err = err
 				return bytesRead, err
 			}
-			// otherwise EOF, fall through
+			if r.currentIsTruncated() {
+				// the body ended before the length announced by the envelope
+				r.err = io.ErrUnexpectedEOF
+				return 0, r.err
+			}
+			// otherwise end of this message, fall through
 		}
 
 		if err := r.prepareNext(); err != nil {
@@ -848,11 +853,24 @@ func (r *envelopingReader) Read(data []byte) (n int, err error) {
 	if len(data) > offset {
 		n, err = r.current.Read(data[offset:])
 	}
-	if offset+n > 0 && errors.Is(err, io.EOF) {
-		// end of this message, not of the stream: the next Read moves on
-		err = nil
+	if errors.Is(err, io.EOF) {
+		switch {
+		case offset+n > 0:
+			// end of this message, not of the stream: the next Read moves on
+			err = nil
+		case r.currentIsTruncated():
+			r.err = io.ErrUnexpectedEOF
+			err = r.err
+		}
 	}
 	return offset + n, err
+}
+
+// currentIsTruncated reports whether the reader of the current message is a
+// length-limited view of the body that still expects bytes.
+func (r *envelopingReader) currentIsTruncated() bool {
+	limited, ok := r.current.(*io.LimitedReader)
+	return ok && limited.N > 0
 }
 
 func (r *envelopingReader) Close() error {
